@@ -15,6 +15,7 @@ import (
 	"fmt"
 	"net"
 	"net/http"
+	"os"
 	"sort"
 	"strconv"
 	"strings"
@@ -1032,4 +1033,36 @@ func (w *world) caseText() string {
 	}
 	return fmt.Sprintf("{| cs_ranges := %s; cs_maxp := %d; cs_maxpool := %d; cs_steps := %s; cs_same := %s |}",
 		coqRanges(w.ranges), w.maxp, maxPool, hx.List(w.steps), hx.List(same))
+}
+
+
+// ---------- a private block of loopback addresses per process ----------
+// Every socket of this property lives on 127.0.10.x.  Explicit ports (the allowed range the model
+// enumerates) are fixed, so two runs on one host (a check and a mutcheck, two mutchecks) must not share
+// an ADDRESS: each process claims one of sixteen blocks 127.0.10.(16k+1 .. 16k+14) by holding a
+// listening socket on 127.0.10.(16k+15):21099 for its lifetime.
+var (
+	blockOnce sync.Once
+	blockBase int
+	blockLock net.Listener
+)
+
+func loop(i int) string {
+	blockOnce.Do(func() {
+		start := os.Getpid() % 16
+		for round := 0; round < 200; round++ {
+			for d := 0; d < 16; d++ {
+				k := (start + d) % 16
+				l, err := net.Listen("tcp", fmt.Sprintf("127.0.10.%d:%d", 16*k+15, basePort+99))
+				if err == nil {
+					blockLock, blockBase = l, 16*k
+					return
+				}
+			}
+			time.Sleep(500 * time.Millisecond)
+		}
+		fmt.Fprintln(os.Stderr, "c10 harness: no free address block on 127.0.10.x")
+		os.Exit(3)
+	})
+	return fmt.Sprintf("127.0.10.%d", blockBase+i)
 }
